@@ -342,6 +342,35 @@ pub fn c04(cfg: &Value) {
     drop(handle);
 }
 
+/// C01, environment answer "the OS refuses to create the writer thread": `build` may refuse
+/// loudly (panic), but a queue it does hand out delivers what is appended to it.
+pub fn c01_spawn_failure(cfg: &Value) {
+    assert_eq!(cfg["pb"].as_u64(), Some(0), "HARNESS: panicking models need preemption bound 0");
+    let boxed = cfg["boxed"].as_bool().unwrap_or(false);
+    let (stream, log) = RecStream::new(BTreeMap::new());
+    thread::fail_next_spawn();
+    let built = mc::catching(move || build(boxed, 8, stream));
+    match built {
+        Err(_) => mc::outcome("build refused loudly (panic)".into()),
+        Ok((q, handle)) => {
+            let tags = [Tag { p: 0, seq: 0 }, Tag { p: 0, seq: 1 }];
+            for t in tags {
+                q.append(t);
+            }
+            drop(handle);
+            let end = log.lock().unwrap_or_else(|e| e.into_inner()).clone();
+            mc::outcome(format!("build handed out a queue: {}", log_string(&end)));
+            let seen = tags_in(&end);
+            for t in tags {
+                if !seen.contains(&t) {
+                    mc::violation("queue-handed-out-without-a-writer", format!("thread creation failed inside build(), which still returned a queue; entry {t} appended to it never reached the stream although the join handle was dropped: {}", log_string(&end)));
+                }
+            }
+            drop(q);
+        }
+    }
+}
+
 /// C01: an entry appended from the writer thread itself (the stream's `next` appends a follow-up
 /// entry through a handle of the same queue, as an entry's Drop or an auditing stream would).
 pub fn c01_writer_thread_append(cfg: &Value) {
